@@ -1,7 +1,10 @@
-(* Proofs about the offsets-topic decoder model (Wire.v) against the reference encoders (WireEnc.v).
-   C06: process_never_crashes, process_alloc_bounded, commit_at_most_one, commit_update_wellformed
-   C07: offset_roundtrip, offset_tombstone, metadata_roundtrip, metadata_tombstone, in_range
-   C10 (reader half): reader_rejected_silent, reader_rejected_nothing, reader_accepted_as_unfiltered *)
+(* Proofs about the offsets-topic decoder model (Wire.v) against the reference encoders (WireEnc.v), first half;
+   WireRoundtripProofs.v continues (metadata round trip, in_range, commit_at_most_one, commit_update_wellformed,
+   reader_accept_spec, reader_lists_enforced).
+   C06: process_never_crashes, process_alloc_bounded, commit_alloc_bounded, *_unrepaired_refuted (finding F1)
+   C07: offset_roundtrip, offset_tombstone, and the decoder-on-encoder lemmas up to decode_member_enc
+   C10 (reader half): reader_rejected_silent, reader_rejected_nothing, reader_no_group_nothing,
+                      reader_accepted_as_unfiltered, reader_rejected_silent_unrepaired_refuted (finding F2) *)
 From Coq Require Import ZArith List Bool Lia.
 From Burrow Require Import Int64 Int64Proofs Wire WireEnc.
 Import ListNotations.
